@@ -322,7 +322,7 @@ package middleware
 //@ watch HD = invoke (runtime.OperationHandler).Handle
 //@ watch RS = call (*Context).Respond
 //@ assume after RI ret(RI,0,0) != nil && forall k string :: in(k, ret(RI,0,0).Producers) ==> ret(RI,0,0).Producers[k] != nil
-//@ requires w != nil && r != nil && r.URL != nil && context != nil && context.debugLogf != nil && context.api != nil && oh != nil
+//@ requires w != nil && r != nil && r.URL != nil && context != nil && context.debugLogf != nil && context.api != nil && context.router != nil && oh != nil
 //@ stable r.URL, comp:MV!Str!Iface, comp:MD!Str!Iface, comp:F!net/http.Request!URL
 //@ ensures [bind] calls(RI) == 1 && calls(BV) == 1 && arg(BV,0,2) == ret(RI,0,0) && arg(BV,0,1) == (ret(RI,0,1) != nil ? ret(RI,0,1) : r)
 //@ ensures [nohandler] ret(BV,0,2) != nil ==> calls(HD) == 0 && calls(RS) == 1 && arg(RS,0,5) == ret(BV,0,2) && arg(RS,0,4) == ret(RI,0,0)
@@ -356,7 +356,7 @@ package middleware
 //@ func (*Context).RouteInfo
 //@ watch CV = invoke (context.Context).Value
 //@ watch LR = call (*Context).LookupRoute
-//@ requires c != nil && request != nil
+//@ requires c != nil && c.router != nil && request != nil && request.URL != nil
 //@ stable request.URL, request.Header, request.Body, request.Method
 //@ ensures [C09:lookup] calls(CV) == 1 && arg(CV,0,0) == boxof(ctxMatchedRoute)
 //@ ensures [C09:memo] typeis(ret(CV,0,0), "*github.com/go-openapi/runtime/middleware.MatchedRoute") ==> calls(LR) == 0 && result1 == request && result2 && boxof(result0) == ret(CV,0,0)
@@ -478,7 +478,7 @@ package middleware
 //@ assume after RI ret(RI,0,0) != nil
 //@ assume after RI forall i int, k string :: 0 <= i && i < len(ret(RI,0,0).Authenticators) && in(k, ret(RI,0,0).Authenticators[i].Authenticator) ==> ret(RI,0,0).Authenticators[i].Authenticator[k] != nil
 //@ assume after RI forall k string :: in(k, ret(RI,0,0).Producers) ==> ret(RI,0,0).Producers[k] != nil
-//@ requires rw != nil && r != nil && r.URL != nil && ctx != nil && ctx.debugLogf != nil && ctx.api != nil && next != nil
+//@ requires rw != nil && r != nil && r.URL != nil && ctx != nil && ctx.debugLogf != nil && ctx.api != nil && ctx.router != nil && next != nil
 //@ stable r.URL, comp:MV!Str!Iface, comp:MD!Str!Iface, comp:F!net/http.Request!URL
 //@ ensures [C02:one] calls(NX) + calls(RS) == 1 && calls(RI) == 1 && calls(NA) == 1 && arg(NA,0,0) == ret(RI,0,0)
 //@ ensures [C02:open] !ret(NA,0,0) ==> calls(AZ) == 0 && calls(NX) == 1
@@ -595,7 +595,7 @@ package middleware
 //@ watch RI = call (*Context).RouteInfo
 //@ watch HD = invoke (net/http.Handler).ServeHTTP
 //@ assume after RI ret(RI,0,0) != nil && ret(RI,0,0).Handler != nil
-//@ requires r != nil && ctx != nil
+//@ requires r != nil && r.URL != nil && ctx != nil && ctx.router != nil
 //@ ensures [C01:handler] calls(RI) == 1 && calls(HD) == 1 && recv(HD,0) == ret(RI,0,0).Handler && arg(HD,0,0) == rw && arg(HD,0,1) == (ret(RI,0,1) != nil ? ret(RI,0,1) : r)
 
 //@ func (RouteParams).GetOK
